@@ -178,6 +178,31 @@ CHECKS["C05"] = {
     "bounds": {"quick": "2 timeouts x 3 delays x 2 rounds; flood 7 reads of 2048", "thorough": "4 timeouts, 3 rounds; flood 8 reads"},
 }
 
+_c06cov = ["prefix needs more", "prefix says no", "whole message matches"]
+CHECKS["C06"] = {
+    "harnesses": [
+        H("c06.VH_ssh", {"L": 8}, {"L": 12}, covers=_c06cov),
+        H("c06.VH_xmpp", {"L": 54}, {"L": 60}, covers=_c06cov),
+        H("c06.VH_postgres", {"L": 14}, {"L": 18}, covers=_c06cov, weight=2),
+        H("c06.VH_socks4", {"L": 10}, {"L": 12}, covers=_c06cov),
+        H("c06.VH_socks4_filter", {"L": 10}, {"L": 12}, covers=_c06cov),
+        H("c06.VH_socks5", {"L": 8}, {"L": 12}, covers=_c06cov),
+        H("c06.VH_socks5_filter", {"L": 8}, {"L": 12}, covers=_c06cov),
+        H("c06.VH_proxyproto", {"L": 14}, {"L": 16}, covers=_c06cov),
+        H("c06.VH_regexp", {"L": 7}, {"L": 9}, covers=_c06cov),
+        H("c06.VH_tls", {"L": 52}, {"L": 55}, covers=_c06cov, weight=8),
+        H("c06.VH_rdp", {"L": 16}, {"L": 19}, covers=_c06cov, weight=2),
+        H("c06.VH_winbox", {"L": 40}, {"L": 44}, covers=_c06cov, weight=2),
+        H("c06.VH_openvpn", {"L": 58}, {"L": 90}, covers=_c06cov, validate=False),
+        H("c06.VH_http", {"L": 16}, {"L": 24}, covers=["prefix needs more", "prefix says no"]),
+    ],
+    "level_text": "bounded model checking, per stream matcher: the real Match runs (through MatcherSet.Match, i.e. with freeze/unfreeze) on one symbolic byte string D and on every prefix D[:P] (P symbolic) under one path condition; asserted: no read from the network, buffer and read position unchanged, same verdict when repeated on the same connection, 'no' on a prefix stays 'no' on the whole, and a message that matches whole is never rejected or failed on a proper prefix (only 'need more' or already 'yes')",
+    "level_note": "per-matcher length bounds as listed; HTTP only for inputs its request-line heuristic does not accept (beyond that it is net/http); DNS excluded (its third-party parser is a havoc stub and therefore not a function of the bytes); openvpn with ignore_timestamp; TLS without sub-matchers",
+    "assumptions": ["the connection under test is a Connection in matching mode pre-loaded with the bytes; the underlying conn asserts it is never read"],
+    "outside": ["messages longer than the per-matcher bound", "HTTP requests accepted by the heuristic (net/http)", "DNS", "QUIC"],
+    "bounds": {"quick": "ssh 8, xmpp 54, postgres 14, socks4 10, socks5 8, proxy_protocol 14, regexp 7, tls 52, rdp 16, winbox 40, openvpn 58, http 16", "thorough": "+2..6 bytes each, openvpn 90"},
+}
+
 NOT_APPLICABLE = {
     "C15": "Caddyfile->JSON adaptation and JSON round-trip run through the Caddyfile lexer, encoding/json reflection and Caddy's module loader over an unbounded configuration grammar; this cannot be encoded by a hand-written go/ssa symbolic executor (reflection refused, inputs are programs of a grammar, not bounded bytes/integers)",
 }
